@@ -34,8 +34,9 @@ RULE += ' ' + 'Unknown files also get hidden (dot-prefixed, .nfs), backup (~) na
 RULE += ' ' + 'Directory spellings include a symbolic link to the real directory.'
 RULE += ' ' + "Directory spellings include '~/name' and '$VAR/name'; unknown files include copies of a live value file under its own name in another directory."
 RULE += ' ' + 'One cache in seven holds a symbolic link to a directory elsewhere: nothing behind it is reported or touched.'
+RULE += ' ' + 'A third of the FanoutCache runs keep a named cache, deque and index made through an earlier handle.'
 ASSUMPTIONS = ['damage is applied while no operation is in flight', 'truncation of text happens on a code-point boundary and extension appends ASCII, except in the low-rate probe of known finding F14']
-PROBES = ('damage_items', 'fanout_runs', 'rows_removed_by_fix', 'f14_probe', 'dir_spelled_dot', 'dir_spelled_double', 'dir_spelled_trailing', 'dir_spelled_dotdot', 'dir_spelled_relative', 'dir_spelled_symlink', 'dir_spelled_tilde', 'dir_spelled_envvar', 'unknown_named_like_value_file', 'link_to_outside_directory', 'more_than_100_file_rows', 'journal_mode_not_wal', 'mass_loss', 'unknown_hidden_name')
+PROBES = ('damage_items', 'fanout_runs', 'rows_removed_by_fix', 'f14_probe', 'dir_spelled_dot', 'dir_spelled_double', 'dir_spelled_trailing', 'dir_spelled_dotdot', 'dir_spelled_relative', 'dir_spelled_symlink', 'dir_spelled_tilde', 'dir_spelled_envvar', 'unknown_named_like_value_file', 'link_to_outside_directory', 'named_sub_objects', 'more_than_100_file_rows', 'journal_mode_not_wal', 'mass_loss', 'unknown_hidden_name')
 TECHNIQUE = 'deterministic simulation with out-of-band damage injection: damage-kind subsets enumerated per sampled cache; report / convergence / undamaged-intact oracle with an independent auditor'
 LEVEL_TEXT = ('fault enumeration over damage-kind subsets: caches are sampled by seed, and for each cache every non-empty subset of the '
               'seven damage kinds is applied (thorough tier); the oracle knows exactly what it damaged and compares the two warning lists per '
@@ -83,7 +84,7 @@ def gen_case(seed, tier):
            'journal': rng.choice(('wal', 'wal', 'wal', 'truncate', 'persist', 'delete')),
            # how the caller spells the directory: check() compares paths it builds from rows with paths it finds by walking
            'dirform': rng.choice(('plain', 'plain', 'plain', 'dot', 'double', 'trailing', 'dotdot', 'relative', 'relative-dot', 'symlink', 'tilde', 'envvar')),
-           'outside_link': rng.random() < 0.15}
+           'outside_link': rng.random() < 0.15, 'named': rng.random() < 0.3}
     return {'seed': seed, 'cfg': cfg, 'items': items, 'damage': []}
 
 
@@ -147,8 +148,20 @@ def run_case(case):
         if cfg.get('journal', 'wal') != 'wal':
             jkw = {'sqlite_journal_mode': cfg['journal']}
             probes['journal_mode_not_wal'] = 1
+        named = None
         if cfg['fanout']:
             top = dc.FanoutCache(spelled(world, 'f', form), shards=cfg['shards'], disk_min_file_size=cfg['mfs'], **jkw)
+            if cfg.get('named'):
+                # named caches, deques and indexes live below the FanoutCache's directory, made through an EARLIER handle: they
+                # are no debris of the sharded cache - nothing about them is reported, nothing of them is touched
+                top.cache('users').set('u1', b'x' * 100)
+                top.deque('jobs').extend(['j1', 'j2'])
+                top.index('names')['n1'] = 'v' * 100
+                spelling = top.directory
+                top.close()
+                top = dc.FanoutCache(spelling, shards=cfg['shards'])
+                named = True
+                probes['named_sub_objects'] = 1
             caches = list(top._shards)
             probes['fanout_runs'] = 1
         else:
@@ -404,6 +417,11 @@ def run_case(case):
                 problems, empties, info = audit(c.directory)
                 if problems:
                     violations.append({'rule': 'C17/audit-after-repair', 'sig': ','.join(sorted({p[0] for p in problems})), 'detail': str(problems[:3])})
+        if named and not violations:
+            left = (top.cache('users').get('u1'), list(top.deque('jobs')), dict(top.index('names')))
+            if left != (b'x' * 100, ['j1', 'j2'], {'n1': 'v' * 100}):
+                violations.append({'rule': 'C17/undamaged-item-changed', 'sig': 'named-sub-objects',
+                                   'detail': 'named cache / deque / index below the FanoutCache after the checks: %s' % (vals.brief(left),)})
         if outside is not None and not violations:
             left = sorted(os.path.relpath(os.path.join(r, f), outside) for r, _, fs in os.walk(outside) for f in fs)
             if left != ['a.csv', os.path.join('sub', 'b.val')]:
